@@ -84,7 +84,7 @@ TraceNext ==
     /\ l' = l + 1
     /\ LET e == Log[l] IN
        \/ /\ e.ev = "Init"
-          /\ Reset(e.snap, e.vl)
+          /\ Reset(e.snap, e.vl, e.maxtime)
           /\ obs' = ObsOf(e)
           /\ n' = 1 /\ verdict' = Ok /\ seenG' = {} /\ seenT' = {}
        \/ /\ e.ev = "Get"
@@ -101,6 +101,9 @@ TraceNext ==
           /\ obs' = ObsOf(e) /\ n' = n + 1 /\ UNCHANGED << verdict, seenG, seenT >>
        \/ /\ e.ev = "SetCutoff"
           /\ SetCutoff(e.c)
+          /\ obs' = ObsOf(e) /\ n' = n + 1 /\ UNCHANGED << verdict, seenG, seenT >>
+       \/ /\ e.ev = "SetMaxTime"
+          /\ SetMaxTime(e.c)
           /\ obs' = ObsOf(e) /\ n' = n + 1 /\ UNCHANGED << verdict, seenG, seenT >>
        \/ /\ e.ev = "Extend"
           /\ Extend(e.name)
@@ -119,7 +122,7 @@ TraceNext ==
        \/ /\ e.ev = "End"
           /\ PrintT(<< "VERDICT", e.tid,
                        verdict.kind \o ":" \o verdict.clause \o "@" \o ToString(verdict.at) >>)
-          /\ Reset(InitStore, << >>)
+          /\ Reset(InitStore, << >>, DefaultMaxTime)
           /\ obs' = NoObs /\ n' = 0 /\ verdict' = Ok /\ seenG' = {} /\ seenT' = {}
 
 TraceSpec == TraceInit /\ [][TraceNext]_tvars
